@@ -180,6 +180,16 @@ def build(template_path, repo_root, subst=None):
             head, ret, where, edits = _split_sig(src, m, item)
             edits = dropped + edits
             binder = d.get("ret", "r")
+            # `assoc=Item:Range<usize>`: a trait method checked inside an inherent impl (trait impls
+            # cannot carry `requires`) has no `Self::Item`; the associated type is spelled out in
+            # the SIGNATURE only (the body is untouched). Reported in `edits`.
+            if d.get("assoc"):
+                an, at = d["assoc"].split(":", 1)
+                if ret is not None and ("Self::" + an) in ret:
+                    ret = ret.replace("Self::" + an, at)
+                    edits.append(f"assoc-type-in-signature:Self::{an}={at}")
+                if ("Self::" + an) in head:
+                    head = head.replace("Self::" + an, at)
             sig = head
             if ret is not None:
                 sig += f" -> ({binder}: {ret})"
